@@ -120,9 +120,45 @@ func (x *Exec) mergeStates(sts []*State) *State {
 		res.clk = tt.Ite(c, s.clk, res.clk)
 		// defers
 		res.defers = x.mergeDefers(res.defers, s.defers, res.pc, c)
-		res.pc = tt.Or(res.pc, s.pc)
+		res.pc = x.orFactored(res.pc, s.pc)
 	}
 	return res
+}
+
+func conjunctsOf(t *Term) []*Term {
+	if t.Kind == KApp && t.Op == "and" {
+		return t.Args
+	}
+	return []*Term{t}
+}
+
+// orFactored: a || b with the conjuncts common to both pulled out (keeps dominating conditions visible as conjuncts).
+func (x *Exec) orFactored(a, b *Term) *Term {
+	tt := x.tt
+	ca, cb := conjunctsOf(a), conjunctsOf(b)
+	inB := map[int]bool{}
+	for _, t := range cb {
+		inB[t.id] = true
+	}
+	var common, ra, rb []*Term
+	isCommon := map[int]bool{}
+	for _, t := range ca {
+		if inB[t.id] {
+			common = append(common, t)
+			isCommon[t.id] = true
+		} else {
+			ra = append(ra, t)
+		}
+	}
+	for _, t := range cb {
+		if !isCommon[t.id] {
+			rb = append(rb, t)
+		}
+	}
+	if len(common) == 0 {
+		return tt.Or(a, b)
+	}
+	return tt.And(append(common, tt.Or(tt.And(ra...), tt.And(rb...)))...)
 }
 
 func sameShape(a, b Value) bool {
@@ -233,14 +269,16 @@ func (x *Exec) noteAddr(t *Term) {
 	tt := x.tt
 	// interior addresses: non-nil, share birth with their base, injective
 	base := t.Args[0]
-	x.addFactRaw(tt.Gt(t, tt.IntLit(0)))
-	x.addFactRaw(tt.Eq(tt.UF("birth$", "Int", t), tt.UF("birth$", "Int", base)))
-	x.addFactRaw(tt.Not(tt.UF("isbase$", "Bool", t)))
+	x.addPermFact(tt.Gt(t, tt.IntLit(0)))
+	x.addPermFact(tt.Eq(tt.UF("birth$", "Int", t), tt.UF("birth$", "Int", base)))
+	x.addPermFact(tt.Not(tt.UF("isbase$", "Bool", t)))
 	if t.Op == "ea$" {
-		x.addFactRaw(tt.Eq(tt.UF("ea_arr$", "Int", t), base))
-		x.addFactRaw(tt.Eq(tt.UF("ea_idx$", "Int", t), t.Args[1]))
+		x.addPermFact(tt.Eq(tt.UF("ea_arr$", "Int", t), base))
+		x.addPermFact(tt.Eq(tt.UF("ea_idx$", "Int", t), t.Args[1]))
 	} else {
-		x.addFactRaw(tt.Eq(tt.UF("inv$"+t.Op, "Int", t), base))
+		tt.UF("inv$"+t.Op, "Int", tt.Fresh("u", "Int")) // registers the signature
+		// stated with the raw application: UF() itself rewrites inv(fa(x)) to x, which the solver must be told too
+		x.addPermFact(tt.Eq(tt.App("inv$"+t.Op, "Int", t), base))
 	}
 }
 
